@@ -37,6 +37,10 @@ def specs_for(ctx, n, salt):
             spec = R.rand_spec(rng, objective="holes", nlev=nlev, engines={l: NAN_SAFE for l in range(3)}, max_steps=6)
             if spec["gsc"]["kind"] == "SingularProblemPrecisionReached":
                 spec["gsc"] = {"kind": "MetaepochLimit", "limit": 5}
+        elif i % 5 == 2:
+            # (boundary seeds, below) with engines that hand a derived seed to a library
+            eng = {0: ["sea", "de", "lhs", "sobol", "shade"], 1: ["cma", "cmaw", "cmas", "cma", "de"], 2: ["cma", "local", "sea"]}
+            spec = R.rand_spec(rng, nlev=int(rng.choice([2, 2, 3])), engines=eng, max_steps=int(rng.integers(4, 9)))
         else:
             spec = R.rand_spec(rng, max_steps=int(rng.integers(4, 9)))
         if spec["gsc"]["kind"] == "User":
@@ -51,7 +55,7 @@ def specs_for(ctx, n, salt):
 
 def worker(specs, hashseed, pollute):
     env = dict(os.environ, PYTHONHASHSEED=str(hashseed), PYTHONPATH=REPO, PYHMS_REPO=REPO)
-    p = subprocess.run([sys.executable, os.path.join(VERIF, "harness", "c14_worker.py"), str(pollute)], input=json.dumps(specs).encode(), stdout=subprocess.PIPE, stderr=subprocess.PIPE, env=env, timeout=3000)
+    p = subprocess.run([sys.executable, os.path.join(VERIF, "harness", "c14_worker.py"), str(pollute)], input=json.dumps(specs).encode(), stdout=subprocess.PIPE, stderr=subprocess.PIPE, env=env, timeout=900)
     if p.returncode != 0:
         raise RuntimeError("c14 worker failed: " + p.stderr.decode()[-1500:])
     return json.loads(p.stdout.decode().strip().split("\n")[-1])
@@ -89,8 +93,11 @@ def batch(ctx, n, salt, sl):
 
 
 def safe(f, *a):
+    from ..common import run_limit
+
     try:
-        return f(*a)
+        with run_limit(60):
+            return f(*a)
     except Exception as e:
         return {"error": f"{type(e).__name__}: {e}"}
 
@@ -98,7 +105,7 @@ def safe(f, *a):
 def run(ctx):
     sl = Slice("seeded-twin-runs(in-process x2, 2 fresh interpreters)")
     sl.is_trace = True
-    batch(ctx, ctx.size(60, 600), 7, sl)
+    batch(ctx, ctx.size(100, 600), 7, sl)
     return [sl]
 
 
